@@ -12,7 +12,7 @@
    own ancestor" hold by construction); the correspondence compares them with
    the implementation's [_parent]/[_children]/[_tree] after every step. *)
 From Coq Require Import List ZArith Bool Arith Permutation.
-From NT Require Import Sx Rose Surgery Machine WF PreserveOps PreserveSort PreserveCopy PreserveMore PreserveRelabel Invariant.
+From NT Require Import Sx Rose Surgery Machine WF PreserveOps PreserveSort PreserveCopy PreserveMore PreserveRelabel PreserveKeepClones Invariant.
 Import ListNotations.
 
 (* ---- the checker used by the correspondence decides WF ---- *)
@@ -33,8 +33,8 @@ Theorem C01_step_shortcut : forall w ti n how d explicit k, WFw w -> WFw (snd (o
 Proof. exact WFw_op_shortcut. Qed.
 Print Assumptions C01_step_shortcut.
 
-Theorem C01_step_remove : forall w ti n keep wc, WFw w -> keep && wc = false -> WFw (snd (op_remove w ti n keep wc)).
-Proof. exact WFw_op_remove. Qed.
+Theorem C01_step_remove : forall w ti n keep wc, WFw w -> WFw (snd (op_remove w ti n keep wc)).
+Proof. exact WFw_op_remove_full. Qed.
 Print Assumptions C01_step_remove.
 
 Theorem C01_step_remove_children : forall w ti n, WFw w -> WFw (snd (op_remove_children w ti n)).
@@ -104,19 +104,18 @@ Proof. exact WFw_op_tree_from_dict. Qed.
 Print Assumptions C01_step_tree_from_dict.
 
 (* ---- every step, every history ---- *)
-(* the full statement *)
-Definition C01_full_statement : Prop := forall w o, WFw w -> WFw (snd (step w o)).
-Definition C01_history_full_statement : Prop := forall ops w, WFw w -> WFw (run ops w).
+Theorem C01_step : forall w o, WFw w -> WFw (snd (step w o)).
+Proof. exact WFw_step. Qed.
+Print Assumptions C01_step.
 
-(* proved for the operations selected by [covered] (all but
-   remove(keep_children=True, with_clones=True)) *)
-Theorem C01_step_partial : forall w o, covered o = true -> WFw w -> WFw (snd (step w o)).
-Proof. exact WFw_step_partial. Qed.
-Print Assumptions C01_step_partial.
+Theorem C01_history : forall ops w, WFw w -> WFw (run ops w).
+Proof. exact WFw_run. Qed.
+Print Assumptions C01_history.
 
-Theorem C01_history_partial : forall ops w, forallb covered ops = true -> WFw w -> WFw (run ops w).
-Proof. exact WFw_run_partial. Qed.
-Print Assumptions C01_history_partial.
+(* in particular every world reachable from the empty world *)
+Theorem C01_reachable : forall ops, WFw (run ops empty_world).
+Proof. intros ops. apply WFw_run. exact WFw_empty. Qed.
+Print Assumptions C01_reachable.
 
 (* ---- corollaries spelled out ---- *)
 (* the tree's node count (= len(_node_by_id)) is the number of reachable nodes *)
@@ -157,12 +156,13 @@ Definition c01_ops : list op :=
    OTreeCopy 0;                                     (* tree 1 = deep copy *)
    OCopyTo 0 4 1 0 true BNone true;                 (* refused or copied into tree 1 *)
    ORemove 0 2 false false;
+   ORemove 0 4 true true;                           (* keep_children + with_clones *)
    OSort 0 0 [(1, Some [2%Z]); (4, Some [1%Z])] false false;
    OMeta 0 1 (MSet [7%Z] (Some (A 1%Z)));
    OAdd 0 1 (c01_dd 20) None None BNone;            (* a second node with data_id 20 *)
    OSetData 0 4 (Some (c01_dd 50)) None (Some true);  (* re-key the clone group {4, new} *)
    ORename 0 1 (c01_dd 60)].                        (* refused: data is not a str *)
 Example C01_nonvacuous :
-  wf_world_b (run c01_ops empty_world) = true /\ forallb covered c01_ops = true /\
+  wf_world_b (run c01_ops empty_world) = true /\
   length (trees (run c01_ops empty_world)) = 2 /\ 6 <= length (all_ids (run c01_ops empty_world)).
 Proof. vm_compute. repeat split. repeat constructor. Qed.
